@@ -12,7 +12,7 @@ import ast
 from .. import AnalysisError, AnchorMissing
 from ..cfg import cfg_of
 from ..model import own_nodes
-from ..values import pattern, match, find, contains, show, subterms
+from ..values import pattern, match, match_any, find, contains, show, subterms
 from ..domains import polarity, POS, NEG, ZERO
 from .base import obligation, src, callee_name
 from .C04 import pattern_term, returns, enclosing_loop, _inside
@@ -244,6 +244,29 @@ def c11_b(ctx):
                       'bounds of the same dimension', 'bounds[i] with column i',
                       'the bounds index {} differs from the column index {}'.format(
                           [show(i) for i in idx], show(col) if col else None), fn=m, node=c)
+            # zero noise variance is a legal setting: the division by std and truncnorm with
+            # scale 0 give nan, and nan is not inside the bounds - that column must be skipped
+            zero_skipped = any(
+                (not pol) and match_any(t, ('_s == 0', '0 == _s')) is not None and
+                match_any(t, ('_s == 0', '0 == _s'))['s'] == scale
+                for (t, pol, _) in ctx.guards(m, c)) or any(
+                pol and match_any(t, ('_s > 0', '0 < _s', '_s != 0')) is not None and
+                match_any(t, ('_s > 0', '0 < _s', '_s != 0'))['s'] == scale
+                for (t, pol, _) in ctx.guards(m, c))
+            ctx.check(zero_skipped, m, 'a zero noise variance leaves the column as it is',
+                      'if std == 0: continue',
+                      'the truncated normal is drawn (and the limits divided) with std = 0 '
+                      'possible: the acquired column becomes nan, which is outside the bounds',
+                      fn=m, node=c)
+            # every exit returns the array that was given (noisy or not)
+            rr_ = returns(m)
+            falls = [p_ for (p_, lab) in cfg_of(m).ret.pred
+                     if not (p_.kind == 'stmt' and isinstance(p_.ast, ast.Return))]
+            ok_r = bool(rr_) and not falls and all(
+                ex.term(r.value) == ('param', m.params[1]) for r in rr_)
+            ctx.check(ok_r, m, 'the (noisy) points are returned on every exit', 'return x',
+                      'the noise step does not return the points on every exit', fn=m,
+                      node=rr_[0] if rr_ else m.node)
             rs = ex.term(kws['random_state']) if 'random_state' in kws else None
             ctx.check(rs == pattern_term('self.random_state'), m, 'noise generator',
                       'random_state=self.random_state',
@@ -981,3 +1004,115 @@ def c11_l(ctx):
               'outputs = arr2d_to_batch(X, names); outputs[target] = Y',
               'extract_result does not report (X by the surrogate\'s names, Y) of the surrogate',
               fn=er, node=outs[0] if outs else er.node)
+
+
+@obligation('C11-m', 'T1 T11', 'control flow of the optimisation loop: the batch that was built is '
+            'returned, the prior phase is exactly t < 0, the base class\'s refusal to submit is '
+            'honoured, and the surrogate\'s optimisation schedule is recorded when it ran',
+            floor=6,
+            necessary='a batch that is built and not returned is replaced by prior draws; a gate '
+                      'that treats acquisition 0 as prior phase lets it start while initial '
+                      'batches are pending (schedule-dependent evidence); an unrecorded '
+                      'optimisation makes every later batch re-optimise')
+def c11_m(ctx):
+    bo = ctx.cls(BO)
+    pn = ctx.own_method(bo, 'prepare_new_batch')
+    ex = ctx.ex(pn)
+    cfg = cfg_of(pn)
+    T_ = 'self._get_acquisition_index(batch_index)'
+    rr = returns(pn)
+    falls = [p for (p, lab) in cfg.ret.pred if not (p.kind == 'stmt' and
+                                                    isinstance(p.ast, ast.Return))]
+    valued = [r for r in rr if r.value is not None and ex.term(r.value) != ('const', None)]
+    bare = [r for r in rr if r not in valued]
+    ok = bool(valued) and not falls and all(
+        match(ex.term(r.value), pattern('arr2d_to_batch(_a, self.target_model.parameter_names)'))
+        is not None for r in valued) and all(
+        any(pol and match(t, pattern(T_ + ' < 0')) is not None
+            for (t, pol, _) in ctx.guards(pn, r)) for r in bare) and all(
+        any((not pol) and match(t, pattern(T_ + ' < 0')) is not None
+            for (t, pol, _) in ctx.guards(pn, r)) for r in valued)
+    ctx.check(ok, pn, 'acquired batch returned outside the prior phase',
+              'return arr2d_to_batch(acquisition[:batch_size], parameter_names) unless t < 0',
+              'outside the prior phase (t >= 0) prepare_new_batch does not return the batch '
+              'built from the acquired points', fn=pn, node=(valued or rr or [pn.node])[0])
+    # stored remainder is written before the batch leaves
+    st = [s for (s, t, k) in ctx.stores(pn, "self.state['acquisition']") if isinstance(s, ast.Assign)]
+    ok = bool(st) and bool(valued) and all(ctx.must_precede(pn, st, r) for r in valued)
+    ctx.check(ok, pn, 'remainder stored on the way out', "state['acquisition'] = rest before return",
+              'a batch can be returned without the remaining acquired points being stored: the '
+              'same points are handed out again', fn=pn, node=st[0] if st else pn.node)
+    # _allow_submit
+    al = ctx.own_method(bo, '_allow_submit')
+    exa = ctx.ex(al)
+    cfa = cfg_of(al)
+    rr = returns(al)
+    falls = [p for (p, lab) in cfa.ret.pred if not (p.kind == 'stmt' and
+                                                    isinstance(p.ast, ast.Return))]
+    SUP = ('super(*_)._allow_submit(batch_index)', 'super()._allow_submit(batch_index)')
+    rf = [r for r in rr if r.value is not None and exa.term(r.value) == ('const', False)]
+    rt = [r for r in rr if r.value is not None and exa.term(r.value) == ('const', True)]
+    base_ref = [r for r in rf if any((not pol) and match_any(t, SUP) is not None
+                                     for (t, pol, _) in ctx.guards(al, r))]
+    ok = len(base_ref) == 1 and not falls and len(rf) + len(rt) == len(rr) and all(
+        any(pol and match_any(t, SUP) is not None for (t, pol, _) in ctx.guards(al, r))
+        for r in rt)
+    ctx.check(ok, al, 'base refusal honoured', 'return False when the base class refuses; True is '
+              'returned only after it agreed',
+              'a batch can be submitted although the base class (parallel / total batch limits) '
+              'refuses', fn=al, node=(base_ref or rr or [al.node])[0])
+    # every test on the acquisition index in this function is `t < 0` (in either polarity)
+    tests_on_t = [tn for tn in cfa.nodes if tn.kind == 'test' and
+                  contains(exa.term(tn.ast, tn), T_)]
+    exact = bool(tests_on_t) and all(
+        match(exa.term(tn.ast, tn), pattern(T_ + ' < 0')) is not None or
+        match(exa.term(tn.ast, tn), pattern(T_ + ' >= 0')) is not None or
+        match(exa.term(tn.ast, tn), pattern('not ' + T_ + ' < 0')) is not None
+        for tn in tests_on_t)
+    prior_phase = [r for r in rt if any(pol and match(t, pattern(T_ + ' < 0')) is not None
+                                        for (t, pol, _) in ctx.guards(al, r))]
+    ok = exact and bool(prior_phase)
+    # the pending gate is on the t >= 0 side
+    gate = [r for r in rf if r not in base_ref]
+    ok = ok and bool(gate) and all(
+        any((not pol) and match(t, pattern(T_ + ' < 0')) is not None
+            for (t, pol, _) in ctx.guards(al, r)) for r in gate)
+    ctx.check(ok, al, 'prior phase is exactly t < 0',
+              'if t < 0: return True  (free submission only while the prior supplies the points)',
+              'free submission is not limited to exactly t < 0, or the pending gate does not '
+              'cover every t >= 0', fn=al, node=(prior_phase or [al.node])[0])
+    # update(): optimisation decided before the data are added, recorded when it ran
+    up = ctx.own_method(bo, 'update')
+    exu = ctx.ex(up)
+    tu = ctx.calls(up, 'self.target_model.update(*_)')
+    so = ctx.calls(up, 'self._should_optimize()')
+    ok = len(tu) == 1 and len(so) == 1 and ctx.must_precede(up, so, tu[0]) and \
+        len(tu[0].args) + len(tu[0].keywords) == 3
+    if ok:
+        a3 = tu[0].args[2] if len(tu[0].args) == 3 else [k.value for k in tu[0].keywords
+                                                         if k.arg == 'optimize'][0]
+        ok = match(exu.term(a3), pattern('self._should_optimize()')) is not None
+    ctx.check(ok, up, 'optimisation decided before the evidence is added',
+              'optimize = self._should_optimize(); target_model.update(params, y, optimize)',
+              'the decision to optimise is not taken before the surrogate receives the batch '
+              '(it reads the surrogate\'s evidence count) or is not passed on', fn=up,
+              node=tu[0] if tu else up.node)
+    st = [s for (s, t, k) in ctx.stores(up, "self.state['last_GP_update']")
+          if isinstance(s, ast.Assign)]
+    ok = len(st) == 1 and bool(tu) and ctx.must_precede(up, tu, st[0]) and \
+        match(exu.term(st[0].value), pattern('self.target_model.n_evidence')) is not None
+    if ok:
+        gs = [(t, pol, ta) for (t, pol, ta) in ctx.guards(up, st[0])]
+        ok = any(pol and match(t, pattern('self._should_optimize()')) is not None
+                 for (t, pol, _) in gs) and len(ctx.guard_groups(up, st[0])) == 1
+        # every path on which the optimisation ran records it
+        if ok:
+            tests = [(tn, True) for tn in cfg_of(up).nodes if tn.kind == 'test' and
+                     match(exu.term(tn.ast, tn), pattern('self._should_optimize()')) is not None]
+            ok = not cfg_of(up).exists_path_assuming(
+                ctx.node(up, tu[0]), cfg_of(up).ret, avoiding=[ctx.node(up, st[0])],
+                assumed=tests)
+    ctx.check(ok, up, 'optimisation recorded exactly when it ran',
+              "if optimize: state['last_GP_update'] = target_model.n_evidence",
+              'the evidence count of the last optimisation is not recorded exactly when the '
+              'surrogate was optimised', fn=up, node=st[0] if st else up.node)
